@@ -398,6 +398,10 @@ def load_glb(
     if chunk_type != _magic["json"]:
         raise ValueError("no initial JSON header!")
 
+    # a chunk can't be longer than the data that is left: `read(n)`
+    # on a file allocates `n` bytes before it looks at the file
+    if int(chunk_length) > util.distance_to_end(file_obj):
+        raise ValueError("JSON chunk is longer than the file!")
     # uint32 causes an error in read, so we convert to native int
     # for the length passed to read, for the JSON header
     json_data = file_obj.read(int(chunk_length))
@@ -436,6 +440,8 @@ def load_glb(
         # make sure we have the right data type
         if chunk_type != _magic["bin"]:
             raise ValueError("not binary GLTF!")
+        if int(chunk_length) > util.distance_to_end(file_obj):
+            raise ValueError("chunk is longer than the file!")
         # read the chunk
         chunk_data = file_obj.read(int(chunk_length))
         if len(chunk_data) != chunk_length:
